@@ -121,6 +121,47 @@ def scen_nfu(env):
     env.check('nfu-second', Iff_(changed, len(sink) == 1))
 
 
+def scen_fanout_isolation(env):
+    """'the filters of an Event run ... on the data of that one delivery': one trigger, two Events; the filters of the
+    first edit their data in place / with DataEdit / replace it - the second Event (and a second filter pipeline of its
+    own) still sees the original items, and the bundled filters work inside a pipeline behind an editing filter"""
+    circ = sync_circuit()
+    sink = []
+    p1 = SinkProbe('p1', sink=sink)
+    p2 = SinkProbe('p2', sink=sink)
+    ctl = edzed.Input('ctl', initdef=1)
+    how = env.pick(['inplace', 'dataedit', 'replace', 'ifoutput-then-permit'], 'first_filter')
+
+    def inplace(data):
+        del data['value']
+        data['x'] = 1
+        return True
+    f1 = {'inplace': inplace, 'dataedit': edzed.DataEdit.delete('value').add(x=1),
+          'replace': lambda data: {'x': 1},
+          'ifoutput-then-permit': [edzed.IfOutput('ctl'), edzed.DataEdit.permit('x').add(x=1)]}[how]
+    delta = env.int('delta', 0)
+    src = Settable('src', on_output=[edzed.Event(p1, 'e1', efilter=f1),
+                                     edzed.Event(p2, 'e2', efilter=[edzed.not_from_undef, edzed.Delta(delta)])])
+    start_sync(circ)
+    v1, v2 = env.int('v1'), env.int('v2')
+    src.event('set', value=v1)
+    src.event('set', value=v2)
+    changed = bool(Not_(eq_(v1, v2)))       # forks
+    got1 = [d for name, et, d in sink if name == 'p1']
+    got2 = [d for name, et, d in sink if name == 'p2']
+    exp1 = {'x': 1} if how in ('replace', 'ifoutput-then-permit') else None
+    env.check('fanout-first', len(got1) == (2 if changed else 1) and all(
+        (d == exp1) if exp1 is not None else (d.get('x') == 1 and 'value' not in d and d.get('source') == 'src'
+                                              and d.get('trigger') == 'output') for d in got1), info=lambda: (how, got1))
+    # second event: the change from UNDEF dropped; Delta passes its first value always
+    if changed:
+        env.check('fanout-second-untouched', len(got2) == 1 and set(got2[0]) == {'previous', 'value', 'source', 'trigger'}
+                  and bool(And_(eq_(got2[0]['value'], v2), eq_(got2[0]['previous'], v1))) and 'x' not in got2[0],
+                  info=lambda: (how, got2))
+    else:
+        env.check('fanout-second-untouched', got2 == [], info=lambda: got2)
+
+
 def scen_delta(env, n, kind):
     delta = env.real('delta', 0) if kind == 'real' else env.int('delta', 0)
     f = edzed.Delta(delta)
@@ -538,7 +579,8 @@ def shards(tier):
            {'name': 'dataedit two control blocks, two deliveries', 'scenario': 'scen_dataedit_two'},
            {'name': 'not_from_undef', 'scenario': 'scen_nfu'},
            {'name': 'ctrl filters', 'scenario': 'scen_ctrl'},
-           {'name': 'delta NaN', 'scenario': 'scen_delta_nan'}]
+           {'name': 'delta NaN', 'scenario': 'scen_delta_nan'},
+           {'name': 'two events on one trigger, the first edits its data', 'scenario': 'scen_fanout_isolation'}]
     for kind in ('int', 'real'):
         out.append({'name': f'delta {kind} n={b["delta_len"]}', 'scenario': 'scen_delta',
                     'params': {'n': b['delta_len'], 'kind': kind}})
